@@ -722,98 +722,6 @@ func c17Tampered() string {
 	return c17TamperedMsg
 }
 
-// snapshot renders the configuration of the SP deeply (unexported fields included); the
-// cached signing context, the lock and the clock are left out: creating the context lazily is
-// the one permitted change.
-func snapshot(v reflect.Value, depth int, seen map[uintptr]bool, sb *strings.Builder) {
-	if depth > 12 {
-		sb.WriteString("...")
-		return
-	}
-	switch v.Kind() {
-	case reflect.Ptr:
-		if v.IsNil() {
-			sb.WriteString("nil")
-			return
-		}
-		if seen[v.Pointer()] {
-			sb.WriteString("@seen")
-			return
-		}
-		seen[v.Pointer()] = true
-		sb.WriteString("&")
-		snapshot(v.Elem(), depth+1, seen, sb)
-	case reflect.Interface:
-		if v.IsNil() {
-			sb.WriteString("nil")
-			return
-		}
-		sb.WriteString(v.Elem().Type().String() + ":")
-		snapshot(v.Elem(), depth+1, seen, sb)
-	case reflect.Struct:
-		t := v.Type()
-		if t.String() == "big.Int" || t.String() == "time.Time" || t.String() == "x509.Certificate" {
-			// value types with internal pointers: identity by printed fields would be enormous;
-			// certificates and keys are compared through their raw / numeric parts below
-		}
-		sb.WriteString(t.String() + "{")
-		for i := 0; i < v.NumField(); i++ {
-			name := t.Field(i).Name
-			if name == "signingContext" || name == "signingContextMu" || name == "Clock" {
-				continue
-			}
-			sb.WriteString(name + ":")
-			snapshot(v.Field(i), depth+1, seen, sb)
-			sb.WriteString(",")
-		}
-		sb.WriteString("}")
-	case reflect.Slice, reflect.Array:
-		if v.Kind() == reflect.Slice && v.IsNil() {
-			sb.WriteString("nil[]")
-			return
-		}
-		if v.Type().Elem().Kind() == reflect.Uint8 {
-			b := make([]byte, v.Len())
-			for i := range b {
-				b[i] = byte(v.Index(i).Uint())
-			}
-			fmt.Fprintf(sb, "%x", b)
-			return
-		}
-		sb.WriteString("[")
-		for i := 0; i < v.Len(); i++ {
-			snapshot(v.Index(i), depth+1, seen, sb)
-			sb.WriteString(",")
-		}
-		sb.WriteString("]")
-	case reflect.Map:
-		keys := v.MapKeys()
-		ss := []string{}
-		for _, k := range keys {
-			var kb, vb strings.Builder
-			snapshot(k, depth+1, seen, &kb)
-			snapshot(v.MapIndex(k), depth+1, seen, &vb)
-			ss = append(ss, kb.String()+"="+vb.String())
-		}
-		sort.Strings(ss)
-		sb.WriteString("map[" + strings.Join(ss, ",") + "]")
-	case reflect.String:
-		fmt.Fprintf(sb, "%q", v.String())
-	case reflect.Bool:
-		fmt.Fprint(sb, v.Bool())
-	case reflect.Int, reflect.Int8, reflect.Int16, reflect.Int32, reflect.Int64:
-		fmt.Fprint(sb, v.Int())
-	case reflect.Uint, reflect.Uint8, reflect.Uint16, reflect.Uint32, reflect.Uint64, reflect.Uintptr:
-		fmt.Fprint(sb, v.Uint())
-	case reflect.Float32, reflect.Float64:
-		fmt.Fprint(sb, v.Float())
-	case reflect.Func, reflect.Chan, reflect.UnsafePointer:
-		fmt.Fprint(sb, v.IsNil())
-	default:
-		sb.WriteString(v.Kind().String())
-	}
-}
-
 func snapshotSP(sp *saml2.SAMLServiceProvider) string {
 	var sb strings.Builder
 	snapshot(reflect.ValueOf(sp).Elem(), 0, map[uintptr]bool{}, &sb)
